@@ -1476,3 +1476,24 @@ struct SpecialMethodGenInfo<'a> {
     /// Whether it is an iterable, and the type it iterates over
     iterable: Option<Cow<'a, str>>,
 }
+
+/// Verification hooks (add-only, compiled only with `--cfg rust_diplomat_diplomat_verif`).
+#[cfg(rust_diplomat_diplomat_verif)]
+pub(crate) mod verif_hooks {
+    use super::formatter::DartFormatter;
+    use diplomat_core::hir;
+
+    /// `(table, value)` rows of the formatter's primitive tables for one primitive:
+    /// `fmt_primitive_as_ffi(p, false)` and `fmt_primitive_as_ffi(p, true)`.
+    pub fn dart_prim_rows(
+        tcx: &hir::TypeContext,
+        docs: &hir::DocsUrlGenerator,
+        p: hir::PrimitiveType,
+    ) -> Vec<(&'static str, String)> {
+        let f = DartFormatter::new(tcx, docs);
+        vec![
+            ("dart_ffi", f.fmt_primitive_as_ffi(p, false).to_string()),
+            ("dart_cast", f.fmt_primitive_as_ffi(p, true).to_string()),
+        ]
+    }
+}
